@@ -61,6 +61,7 @@ fn main() {
 		"C06" => props::c06::run(&ctx, &mut rep),
 		"C07" => props::c07::run(&ctx, &mut rep),
 		"C09" => props::c09::run(&ctx, &mut rep),
+		"C10" => props::c10::run(&ctx, &mut rep),
 		"C11" => props::c11::run(&ctx, &mut rep),
 		"C13" => props::c13::run(&ctx, &mut rep),
 		"C14" => props::c14::run(&ctx, &mut rep),
